@@ -8,6 +8,7 @@ import BqVerif.Proofs.RetOnceNet
 import BqVerif.Model.RuntimeWitness
 import BqVerif.Proofs.Wake
 import BqVerif.Proofs.SchedExact
+import BqVerif.Proofs.WakeNet
 /-!
 # C07 — every awaited runtime future resolves exactly once with its own result
 
@@ -289,6 +290,44 @@ example :
     ∧ (ops.foldl (Worker.applyOp tbl) { id := 0 }).tasks = []
     ∧ (ops.foldl (Worker.applyOp tbl) { id := 0 }).boxes = [] := by
   refine ⟨okRunB_sound _ _ _ (by decide +kernel), by decide +kernel, by decide +kernel⟩
+
+/-- **Wake discipline on the flat network, first assumption discharged.**  For all schedules of
+    the flat network (any table, workers, clients, assignments, error and shutdown paths) in which
+    no result is deposited into a mailbox that is already complete (`Net.depositsOK`, the second
+    assumption of the worker-level theorems, stated transition by transition): every worker of
+    the reached state satisfies the wake invariant `WInv` - in particular the task its next loop
+    iteration picks passes `_get_desired_result` or gets KeyError for a dropped mailbox, and no
+    wake-up is lost.  The first assumption of the worker-level theorems (an arriving task has not
+    run and its address is unknown to the worker: not in `_tasks`, not delayed, not in the ready
+    queue) is *proved* here from token uniqueness (`GInv`) and from "an address whose token is
+    gone never comes back" (`PsiA`, `Proofs/DeadAddr.lean`).  Invariant `NInv`
+    (`Proofs/WakeNet.lean`). -/
+theorem C07_G_wake_discipline_partial (tbl : Table) (attached : Bool) (nw nc : Nat) (trs : List Tr)
+    (hwf : ∀ t ∈ trs, t.wf) (hdep : (Net.initFlat tbl attached nw nc).depositsOK trs)
+    (w : Worker) (hw : w ∈ ((Net.initFlat tbl attached nw nc).exec trs).workers) :
+    (∀ t0 cls, (Worker.pick w.pickFuel { w with blocked := false }).task = some t0 →
+        desiredResult (Worker.pick w.pickFuel { w with blocked := false }).w t0 = .error cls → cls = eKey)
+    ∧ (∀ t ∈ w.tasks, t.uncancelled w → ∀ m b, t.desired = some m → boxGet w.boxes m = some b →
+        (b.ready = true → t.addr ∈ w.ready) ∧ (t.addr ∉ w.ready → b.dest = some t.addr)) := by
+  have h := ((NInv.init tbl attached nw nc).exec trs hwf hdep).winv w hw
+  exact ⟨fun t0 cls hp he => assert_unreachable w h t0 hp cls he,
+    fun t ht hu m b hd hb => no_lost_wakeup w h t ht hu m b hd hb⟩
+
+/-- non-vacuity: a root that submits a child and awaits it on a one-worker network; the child returns
+    locally, the root resumes and returns to the server - the run meets the assumption, and the
+    server mailbox holds the root's result -/
+example :
+    let tbl : Table := [[], [.sub 0, .await 0]]
+    let run : List Tr := [
+      .step 0, .client 0 (some (.cSubmit 0 1)) false, .deliver (.client 0) .server [0] [] false,
+      .deliver .server (.wrk 0) [] [] false, .step 0,
+      .deliver (.wrk 0) .server [] [] false, .deliver (.wrk 0) .server [0] [] false,
+      .deliver .server (.wrk 0) [] [] false, .step 0, .step 0,
+      .deliver (.wrk 0) .server [] [] false, .deliver (.wrk 0) .server [] [] false,
+      .deliver (.wrk 0) .server [] [] false]
+    (Net.initFlat tbl false 1 1).depositsOK run
+    ∧ ((Net.initFlat tbl false 1 1).exec run).server.boxes.map (fun p => p.2.result.isSome) = [true] := by
+  refine ⟨depositsOKB_sound _ _ (by decide +kernel), by decide +kernel⟩
 
 /-- **Manager trees: a manager neither loses nor duplicates a task or a result.**  For every
     message a `Manager` handles without reporting an error (`note = "ok"`: the observed assignment
